@@ -1051,6 +1051,11 @@ type verifTransJSON interface {
 	ReadResultJSONWriteResultTL1(jctx *basictl.JSONReadContext, r []byte, w []byte) ([]byte, []byte, error)
 }
 
+type verifTransTL2JSON interface {
+	ReadResultTL2WriteResultJSON(tctx *basictl.TL2ReadContext, jctx *basictl.JSONWriteContext, r []byte, w []byte) ([]byte, []byte, error)
+	ReadResultJSONWriteResultTL2(jctx *basictl.JSONReadContext, tctx *basictl.TL2WriteContext, r []byte, w []byte) ([]byte, []byte, error)
+}
+
 func verifH_C07(d *verifDesc) {
 	if d.typedTL1toTL1 == nil {
 		return
@@ -1083,6 +1088,31 @@ func verifH_C07(d *verifDesc) {
 				verifAssert(verifBytesEq(back, w1), "tl1-tl2-tl1-reproduces-the-result")
 				_, want1, e4 := d.typedTL2toTL1(q, t2)
 				verifAssert(e4 == nil && verifBytesEq(back, want1), "tl2-to-tl1-transcoder-agrees-with-typed-path")
+			}
+		}
+	}
+	if t, ok := q.(verifTransTL2JSON); ok && verifParam("json", 1) != 0 {
+		// the direct TL2<->JSON transcoders against the two-step routes through TL1, under EVERY JSON context (legacy type names,
+		// short names, TL2 naming): the context must reach the result writer on every route
+		if t1, ok := q.(verifTransTL2); ok {
+			if tj, ok := q.(verifTransJSON); ok {
+				if _, t2, e2 := t1.ReadResultTL1WriteResultTL2(nil, b, nil); e2 == nil {
+					jctx := basictl.JSONWriteContext{LegacyTypeNames: verifBool(), Short: verifBool(), IsTL2: verifBool()}
+					_, jA, eA := t.ReadResultTL2WriteResultJSON(nil, &jctx, t2, nil)
+					_, jB, eB := tj.ReadResultTL1WriteResultJSON(&jctx, b, nil)
+					verifCover("json-contexts")
+					verifAssert((eA == nil) == (eB == nil), "tl2-to-json-and-tl1-to-json-accept-the-same")
+					if eA == nil && eB == nil {
+						verifAssert(verifBytesEq(jA, jB), "tl2-to-json-agrees-with-tl1-to-json-under-the-same-context")
+						if !jctx.LegacyTypeNames && !jctx.Short && !jctx.IsTL2 {
+							_, t2back, e3 := t.ReadResultJSONWriteResultTL2(&basictl.JSONReadContext{}, nil, jA, nil)
+							verifAssert(e3 == nil, "json-to-tl2-transcoder-accepts")
+							if e3 == nil {
+								verifAssert(verifBytesEq(t2back, t2), "tl2-json-tl2-reproduces-the-result")
+							}
+						}
+					}
+				}
 			}
 		}
 	}
